@@ -53,7 +53,7 @@ func c17(r *Run) {
 	qunlock := w.MustFn("(*mux.ShardQueue).unlock")
 	worker := closureArgOfDynCall(foreach, "global:runner.RunTask", 1)
 	if worker == nil {
-		broken("ANCHOR-LOST C17: worker closure (argument of runner.RunTask in foreach)")
+		r.absentf(" C17: worker closure (argument of runner.RunTask in foreach)")
 	}
 	const fTrigger, fRun, fState = "queueTrigger.trigger", "queueTrigger.runNum", "queueTrigger.state"
 	stActive, stClosed := w.constIn(w.Mux, "active"), w.constIn(w.Mux, "closed")
